@@ -194,7 +194,7 @@ def instances(tier):
             for form in ('dict', 'pairs'):
                 out.append(Inst(f'transfer[m={m},t={t},prss={int(prss)},{g},{form}]', h_transfer,
                                 dict(m=m, t=t, prss=prss, graph=g, form=form), timeout=600, n_validate=0))
-        for snd, rcv in [(None, None), (0, None), (None, 0), ([1, 2], [0]), (m - 1, [0, 1]), ([0], []), (range(1, m), range(0, 2))]:
+        for snd, rcv in [(None, None), (0, None), (None, 0), ([1, 2] if m > 2 else [1], [0]), (m - 1, [0, 1]), ([0], []), (range(1, m), range(0, 2))]:     # m = 2 has no party 2
             out.append(Inst(f'transfer[m={m},t={t},prss={int(prss)},S={snd},R={rcv}]', h_transfer,
                             dict(m=m, t=t, prss=prss, form='subsets', senders=snd, receivers=rcv), timeout=600, n_validate=0))
     out.append(Inst('twin_non_receiver_gets_value', h_twin, {}, twin=True, expect='violated'))
